@@ -24,6 +24,14 @@ func init() {
 
 var c10Progs = []string{
 	`a*2+b`,
+	// constant lazy lists whose producer fails for one element: the failure is the outcome every time
+	`let l=[3,2,0,4].map(x->12%x); try l[a%4] catch b`,
+	`let l=[3,2,0,4].map(x->12%x); [try l.size()+a catch b, try l[0] catch b, try l.first() catch a]`,
+	`let l=numbers(4).map(x->if x=2 then throw("e") else x); [try l.sum() catch a, try l[0] catch b, try l.top(2).size() catch 0]`,
+	// constant lazy concatenations with a part of unknown size, indexed before and after something materialises them
+	`let c=[1,2].map(x->x)+[3,4,5].accept(x->x>0); [try c[a%5] catch b, c.size(), try c[a%5] catch b]`,
+	`let c=[1,2,3].accept(x->x>1)+[7].map(x->x); [try c[a%3] catch b, try c[2] catch 0-1, c.size()]`,
+	`let c=numbers(3).accept(x->x>=0)+numbers(2).accept(x->x>=0); try c[a%6]+b catch 0-b`,
 	// constant LAZY lists (folded, not yet evaluated) as receivers of the operations that work on a copy
 	`let l=[1,2,3].map(x->x*2); [l.set(a%3,b), l]`,
 	`[3,1,2].map(x->x*2).order(x->x*(a%2*2-1)).append(b)`,
